@@ -218,3 +218,143 @@ Proof.
   replace (length lines + P - 1)%nat with ((length lines - 1) + 1 * P)%nat by lia.
   rewrite Nat.div_add by lia. lia.
 Qed.
+
+(* ==== the typed lines: print_widget_in ===================================================== *)
+Lemma count_asks_print_app ls r : count_asks (map PPrint ls ++ r) = count_asks r.
+Proof. now rewrite count_asks_app, count_asks_map_print. Qed.
+
+Lemma oof_print_app ls r : existsb is_out_of_fuel (map PPrint ls ++ r) = existsb is_out_of_fuel r.
+Proof. now rewrite existsb_oof_app, oof_map_print. Qed.
+
+Lemma upto_ask_print_app k ls r : upto_ask k (map PPrint ls ++ r) = map PPrint ls ++ upto_ask k r.
+Proof. induction ls as [|l ls IH]; [reflexivity|]. cbn [map app upto_ask]. now rewrite IH. Qed.
+
+Lemma in_spec_print_app ls evs typed :
+  pr_prepend (map PPrint ls) (in_spec evs typed) = in_spec (map PPrint ls ++ evs) typed.
+Proof.
+  unfold in_spec. rewrite count_asks_print_app, oof_print_app, upto_ask_print_app.
+  destruct (count_asks evs <=? length typed)%nat; reflexivity.
+Qed.
+
+Lemma page_loop_in_spec : forall fuel lines pos last rsh sh typed,
+  page_loop_in fuel lines pos last rsh sh typed = in_spec (page_loop fuel lines pos last rsh sh) typed.
+Proof.
+  induction fuel as [|f IH]; intros lines pos last rsh sh typed; cbn [page_loop page_loop_in].
+  - destruct (pos <=? last); reflexivity.
+  - destruct (pos <=? last); [|reflexivity].
+    destruct (pos + rsh >? last).
+    + rewrite IH. apply in_spec_print_app.
+    + set (pg := py_slice lines pos (pos + rsh)).
+      destruct typed as [|t typed'].
+      * unfold in_spec. rewrite count_asks_print_app, upto_ask_print_app. reflexivity.
+      * rewrite IH. set (evs := page_loop f lines (pos + rsh) last rsh sh).
+        unfold in_spec. rewrite count_asks_print_app, oof_print_app, upto_ask_print_app.
+        cbn [count_asks existsb is_out_of_fuel orb length upto_ask skipn].
+        change (S (count_asks evs) <=? S (length typed'))%nat with (count_asks evs <=? length typed')%nat.
+        destruct (count_asks evs <=? length typed')%nat; unfold pr_prepend; cbn [pr_events pr_left pr_status];
+          rewrite <- app_assoc; reflexivity.
+Qed.
+
+(* for every height (supported or not) *)
+Lemma paging_in_spec : forall lines H typed,
+  print_widget_in lines H typed = in_spec (print_widget lines H) typed.
+Proof.
+  intros lines H typed. unfold print_widget_in, print_widget.
+  destruct (Z.of_nat (length lines) =? 0); [reflexivity|].
+  destruct (Z.of_nat (length lines) <? H - 2).
+  - unfold in_spec. rewrite count_asks_map_print, oof_map_print. reflexivity.
+  - apply page_loop_in_spec.
+Qed.
+
+(* enough typed lines: exactly the first (n-1)/P are consumed, the rest is left, the output is that
+   of print_widget — a function of the content and the height only *)
+Lemma paging_consumes_one_line_per_prompt : forall lines H typed, 3 <= H ->
+  let asks := ((length lines - 1) / Z.to_nat (H - 2))%nat in
+  (asks <= length typed)%nat ->
+  print_widget_in lines H typed =
+  {| pr_events := print_widget lines H; pr_left := skipn asks typed; pr_status := PgDone |}.
+Proof.
+  intros lines H typed HH asks Hlen. rewrite paging_in_spec. unfold in_spec.
+  rewrite (paging_ask_count lines H HH), (paging_terminates lines H HH). fold asks.
+  destruct (asks <=? length typed)%nat eqn:E; [reflexivity | lia].
+Qed.
+
+Lemma paging_output_independent_of_typed : forall lines H typed1 typed2, 3 <= H ->
+  ((length lines - 1) / Z.to_nat (H - 2) <= length typed1)%nat ->
+  ((length lines - 1) / Z.to_nat (H - 2) <= length typed2)%nat ->
+  pr_events (print_widget_in lines H typed1) = pr_events (print_widget_in lines H typed2).
+Proof.
+  intros lines H t1 t2 HH H1 H2.
+  rewrite (paging_consumes_one_line_per_prompt lines H t1 HH H1),
+          (paging_consumes_one_line_per_prompt lines H t2 HH H2). reflexivity.
+Qed.
+
+(* too few typed lines: blocked at the (k+1)-th prompt, k = number of typed lines *)
+Definition page_with_prompt (p : list line) : list pevent := map PPrint p ++ [PAskContinue].
+
+Lemma upto_ask_page_events : forall full last k, (k < length full)%nat ->
+  upto_ask k (page_events (full ++ [last])) = flat_map page_with_prompt (firstn (S k) full).
+Proof.
+  induction full as [|p full IH]; intros last k Hk; [cbn [length] in Hk; lia|].
+  cbn [app]. rewrite page_events_cons by (destruct full; cbn [app]; congruence).
+  rewrite upto_ask_print_app. cbn [upto_ask firstn flat_map]. unfold page_with_prompt at 1.
+  rewrite <- app_assoc. cbn [app]. f_equal. f_equal.
+  destruct k as [|k']; [reflexivity|].
+  cbn [length] in Hk. apply IH. lia.
+Qed.
+
+Lemma prints_of_pages_with_prompt pages : prints_of (flat_map page_with_prompt pages) = concat pages.
+Proof.
+  induction pages as [|p pages IH]; [reflexivity|].
+  cbn [flat_map concat]. unfold page_with_prompt at 1.
+  rewrite !prints_of_app, prints_of_map_print. cbn [prints_of]. now rewrite app_nil_r, IH.
+Qed.
+
+Lemma count_asks_pages_with_prompt pages : count_asks (flat_map page_with_prompt pages) = length pages.
+Proof.
+  induction pages as [|p pages IH]; [reflexivity|].
+  cbn [flat_map length]. unfold page_with_prompt at 1.
+  rewrite !count_asks_app, count_asks_map_print. cbn [count_asks]. rewrite IH. lia.
+Qed.
+
+Lemma concat_firstn_full {A} (P : nat) : forall (full : list (list A)) (rest : list A) j,
+  Forall (fun p => length p = P) full -> (j <= length full)%nat ->
+  concat (firstn j full) = firstn (j * P) (concat full ++ rest).
+Proof.
+  induction full as [|p full IH]; intros rest j HF Hj.
+  - cbn [length] in Hj. assert (j = 0)%nat by lia. subst j. reflexivity.
+  - inversion HF as [|? ? Hp HF']; subst. destruct j as [|j]; [reflexivity|].
+    cbn [firstn concat]. rewrite <- app_assoc.
+    replace (S j * length p)%nat with (length p + j * length p)%nat by lia.
+    rewrite firstn_app_2. f_equal. apply IH; [exact HF' | cbn [length] in Hj; lia].
+Qed.
+
+Lemma paging_blocks_without_typed_line : forall lines H typed, 3 <= H ->
+  let P := Z.to_nat (H - 2) in
+  (length typed < (length lines - 1) / P)%nat ->
+  let r := print_widget_in lines H typed in
+  pr_status r = PgBlocked /\ pr_left r = [] /\
+  pr_events r = upto_ask (length typed) (print_widget lines H) /\
+  prints_of (pr_events r) = firstn (S (length typed) * P) lines /\
+  count_asks (pr_events r) = S (length typed) /\
+  exists evs, pr_events r = evs ++ [PAskContinue].
+Proof.
+  intros lines H typed HH P Hlt r. unfold r. rewrite paging_in_spec. unfold in_spec.
+  rewrite (paging_ask_count lines H HH). fold P.
+  destruct ((length lines - 1) / P <=? length typed)%nat eqn:E; [lia|]. clear E.
+  cbn [pr_status pr_left pr_events].
+  destruct (print_widget_pages lines H HH) as (full & last & Hev & Hcat & Hfull & _).
+  fold P in Hfull.
+  assert (Hk : (length typed < length full)%nat).
+  { pose proof (paging_ask_count lines H HH) as Hc. rewrite Hev, count_asks_page_events, app_length in Hc.
+    cbn [length] in Hc. fold P in Hc. lia. }
+  rewrite Hev, (upto_ask_page_events full last _ Hk).
+  repeat split.
+  - rewrite prints_of_pages_with_prompt, <- Hcat. apply concat_firstn_full; [exact Hfull | lia].
+  - rewrite count_asks_pages_with_prompt, firstn_length. lia.
+  - assert (Hne : firstn (S (length typed)) full <> []).
+    { destruct full; [cbn [length] in Hk; lia | discriminate]. }
+    destruct (exists_last Hne) as (ps & p0 & ->).
+    rewrite flat_map_app. cbn [flat_map]. rewrite app_nil_r. unfold page_with_prompt at 2.
+    rewrite app_assoc. eexists. reflexivity.
+Qed.
